@@ -277,3 +277,29 @@ def c14_rpc(stream, res, impl):
             if okv.get("returned") != str(n) or okv.get("own") != str(n):
                 return "storm of %s concurrent callers per side (limit %s/%s): %s" % (kv["callers"], kv["limit"], kv["discard"], out)
     return None
+
+
+def c13_persist(stream, res, impl):
+    """a dump taken right after a reopen equals the dump taken right before it; readers never see a moving total"""
+    if stream["component"] != "persist":
+        return None
+    last_dump = None
+    after_reopen = False
+    for op, out in zip(res, impl):
+        t = op.split()
+        if len(t) < 2:
+            continue
+        if t[1] == "dump" and out.startswith("ok "):
+            if after_reopen and last_dump is not None and out != last_dump:
+                return "state read back after reopen differs from the state acknowledged before it"
+            last_dump, after_reopen = out, False
+        elif t[1] == "reopen":
+            after_reopen = last_dump is not None
+        elif t[1] in ("op", "crash", "prepare", "open"):
+            if t[1] != "op" or t[2] not in ("getnode", "peers", "getnb", "getab", "nodes", "isan", "stats", "active"):
+                last_dump, after_reopen = None, False
+        if t[1] == "readers" and out != "ok violations=0":
+            return "readers observed a ledger total that moved during a trial-balance migration: %s" % out
+        if t[1] == "crash" and not out.startswith("ok crash-consistent"):
+            return "state after kill -9 is not the state after the acknowledged operations (or one more)"
+    return None
